@@ -316,8 +316,8 @@ def main(chk: Check) -> None:
     quick = chk.tier == 'quick'
     rnd = random.Random(chk.seed)
     n_mc = 3 if quick else 4
-    n_short = 50 if quick else 10 ** 9
-    n_long = 8 if quick else 300
+    n_short = 80 if quick else 10 ** 9
+    n_long = 14 if quick else 300
     long_len = 6 if quick else 7
     chk.rule = ('every complete history of 3 events over the replay alphabet exported by TLC (quick: seeded sample) plus '
                 'TLC-simulated longer histories, each replayed with the real CLI; non-trivial = the history contains at '
